@@ -197,6 +197,44 @@ def check(run):
             rd |= set(n for (_b, ow, n, _sp) in fb.field_reads() if ow.endswith("BlockExec"))
         o.check({"state_hash", "tx_count"} <= rd, "end_block|reports-computed", "the reported commitment/tx count are the ones computed for that block", b.span)
 
+    # lookup order and fallback: the exact (repaired / known) entry wins over the slot-keyed pending one; an untracked parent
+    # seeds from ITS block hash (genesis only without a parent)
+    for fn in ("begin_block", "end_block"):
+        fam = [fb for d, fb in prog.bodies.items() if "DummyExecution" in d and ("::%s" % fn) in d and not fb.generated]
+        oe = [(fb, c) for fb in fam for c in fb.calls() if c.name.endswith("Option::or_else") and K.mentions_call(fb.operand_term(c.args[0]), "BTreeMap::get")]
+        ok = len(oe) == 1
+        det = {}
+        if ok:
+            fb, c = oe[0]
+            first = [x[2] for x in mir.walk(fb.operand_term(c.args[0])) if isinstance(x, tuple) and x and x[0] == "agg" and str(x[1]).endswith("InProgressBlock")]
+            cl = [x[1] for x in mir.walk(fb.operand_term(c.args[1])) if isinstance(x, tuple) and x and x[0] == "closure"]
+            second = []
+            for cd in cl:
+                cb = prog.bodies.get(cd)
+                if cb is not None:
+                    second += [rv.get("variant") for (bb, rv, sp, dst) in cb.aggregates(EX + "InProgressBlock")]
+            det = {"first": first, "then": second}
+            ok = first == ["Known"] and second == ["Pending"]
+        o.check(ok, "%s|lookup-order" % fn, "%s looks the block up as Known(block id) first and only then as Pending(slot)" % fn, oe[0][1].span if oe else "", det)
+    for b in bb_:
+        uo = [c for c in b.calls() if c.name.endswith("Option::unwrap_or_else")]
+        ok = len(uo) == 1
+        det = {}
+        if ok:
+            t = b.operand_term(uo[0].args[1])
+            cls = [x for x in mir.walk(t) if isinstance(x, tuple) and x and x[0] == "closure"]
+            ok = len(cls) >= 1
+            if ok:
+                caps = dict(cls[0][2])
+                from_parent = [n for n, ot in caps.items() if K.mentions_arg(b, ot, 3)]
+                cb = prog.bodies.get(cls[0][1])
+                gen = cb is not None and any(str(x[1] if x[0] == "cref" else (x[3] if len(x) > 3 else "")).endswith("GENESIS_BLOCK_HASH")
+                                             for c2 in cb.calls() for a in c2.args for x in mir.consts_in(cb.operand_term(a)))
+                uses = cb is not None and any(K.mentions(cb.operand_term(a), lambda x: x[0] == "upvar" and x[1] in from_parent) for c2 in cb.calls() for a in c2.args)
+                det = {"captures_from_parent": from_parent, "mentions_genesis": gen, "uses_parent": uses}
+                ok = bool(from_parent) and gen and uses
+        o.check(ok, "begin_block|fallback-parent-hash", "the fallback seed is computed from the parent argument (its block hash; GENESIS_BLOCK_HASH only without a parent)", b.span, det)
+
     if run.tier == "thorough":
         witness(run, "O20.1w")
 
